@@ -48,18 +48,38 @@ def machine_overrides(p, word_addr=None, state="Running", wait=False, ir=None, l
     return ov
 
 
-def new_machine(p, I, st, overrides):
-    m = shapes.build(p, RM, shapes.top_leaf, (), overrides)
+MACHINE = "L::machine::Machine"
+
+
+def new_machine(p, I, st, overrides, ty=RM):
+    if ty != RM:
+        overrides = {("raw." + k): v for k, v in overrides.items()}
+    m = shapes.build(p, ty, shapes.top_leaf, (), overrides)
     I.heap_counter = 0
     ma = I.new_alloc(st, "machine", m)
     return ma
 
 
-def written_fields(p, I, events=None):
+def run_method(p, I, path, overrides, extra_args=(), ty=RM, extra_ov=None):
+    """abstractly run a `&mut self` / `&self` method of RawMachine (or Machine, ty=MACHINE)"""
+    st = absint.State()
+    ov = dict(overrides)
+    ma = new_machine(p, I, st, ov, ty)
+    if extra_ov:
+        st.store[ma] = shapes.build(p, ty, shapes.top_leaf, (),
+                                    dict({("raw." + k if ty != RM else k): v for k, v in overrides.items()},
+                                         **extra_ov))
+    I.events.clear()
+    I.call_edges.clear()
+    r = I.run_body(p.need_body(path), [Ref(ma, (), True)] + list(extra_args), st, 0)
+    return st, ma, r
+
+
+def written_fields(p, I, events=None, ty=RM):
     out = set()
     for e in (events if events is not None else I.events):
         if e.kind == "write" and e.info[0][1] == "machine":
-            out.add(shapes.name_path(p, RM, e.info[1]))
+            out.add(shapes.name_path(p, ty, e.info[1]))
     return out
 
 
@@ -71,10 +91,9 @@ def run_edge(p, I, overrides):
     return st, ma, r
 
 
-def field(p, I, st, ma, dotted):
+def field(p, I, st, ma, dotted, ty=RM):
     """load a field of the machine by dotted name"""
     path = []
-    ty = RM
     for name in dotted.split("."):
         base, _ = shapes.split_generic_args(ty)
         idx = p.field_index(base, name)
@@ -103,6 +122,13 @@ def _front(a):
            "bad": [repr(e) for e in bad[:5]]}
     res["writes"] = sorted(written_fields(p, I))
     res["iff"] = field(p, I, st, ma, "pending_edge_interrupt")
+    if kind[0] != "load":
+        # without a pending register commit: can this edge halt the machine?
+        ov3 = machine_overrides(p, a, "Running", False, Opaque("IR"), Opaque("LBR"),
+                                extra={"pending_register_write": En({0: ()})})
+        st3, ma3, _ = run_edge(p, I, ov3)
+        s3 = field(p, I, st3, ma3, "state")
+        res["state_nocommit"] = sorted(s3.vs) if isinstance(s3, En) else None
     if kind[0] == "load":
         # which loaded bytes halt the machine?  (abstract runs with the byte class pinned;
         # the pending register commit is disabled so that only the IR-load stage can halt)
@@ -150,7 +176,8 @@ def per_word(p, prog_words, cache_dir=None):
     """front-half (IR update) and back-half (data path) summaries per programmed word"""
     global _P
     if cache_dir:
-        f = os.path.join(cache_dir, "step_tables.pickle")
+        from .facts import code_hash
+        f = os.path.join(cache_dir, "step_tables.%s.pickle" % code_hash())
         if os.path.exists(f):
             with open(f, "rb") as fh:
                 return pickle.load(fh)
